@@ -1878,3 +1878,37 @@ NEW4 = [
       edits=[(T, TS_CUT, TS_NOFOUND), (T, '\t\tif !file.IsValidFileName(namedStore) {', '\t\t_ = namedStore\n\t\tif !file.IsValidFileName(storeType) {')]),
 ]
 VARIANTS += NEW4
+
+# ---- guard-mutation pass: the two `found` guards disabled by a conjunct (`if false && (!found)`, a realistic conjunct) ----
+# Both guards are subsumed by the guard that follows them (contract of strings.Cut: without separator the second half is
+# ""), so disabling them alone changes at most the error text: silent. They matter only together with the subsuming
+# guard — then the separator slot itself reports, as a must-pass fact of the success exits / of the completed iteration.
+GM_SC = '\tdomain, repository, found := strings.Cut(scope, "/")\n\tif !found {\n'
+GM_TS = '\t\tstoreType, namedStore, found := strings.Cut(trustStore, ":")\n\t\tif !found {\n'
+GM_REPO_OPEN = '\tif domain == "" || !domainRegexp.MatchString(domain) || (repository != "" && !repositoryRegexp.MatchString(repository)) {\n'
+GM_NAME = '\t\tif !file.IsValidFileName(namedStore) {'
+NEW5 = [
+ dict(name='benign-gm-scope-found-false-conjunct', expect='silent',
+      edits=[(O, GM_SC, GM_SC.replace('if !found {', 'if false && (!found) {'))],
+      why='silent: equivalent mutant — a scope without "/" is cut into (scope, ""), which repository == "" rejects with the same error'),
+ dict(name='benign-gm-scope-found-realistic-conjunct', expect='silent',
+      edits=[(O, GM_SC, GM_SC.replace('if !found {', 'if len(scope) > 1 && !found {'))],
+      why='silent: as above, whatever the conjunct — the guard on the repository half still rejects every scope without separator'),
+ dict(name='gm-scope-found-false-conjunct-empty-repository-passes', expect='flagged(scope-format/has-slash)',
+      edits=[(O, GM_SC, GM_SC.replace('if !found {', 'if false && (!found) {')), (O, FMT_COND, GM_REPO_OPEN)]),
+ dict(name='gm-scope-found-realistic-conjunct-empty-repository-passes', expect='flagged(scope-format/has-slash)',
+      edits=[(O, GM_SC, GM_SC.replace('if !found {', 'if len(scope) > 1 && !found {')), (O, FMT_COND, GM_REPO_OPEN)]),
+ dict(name='benign-gm-store-found-false-conjunct', expect='silent',
+      edits=[(T, GM_TS, GM_TS.replace('if !found {', 'if false && (!found) {'))],
+      why='silent for the property: equivalent mutant up to the error text — an entry without ":" is cut into (entry, ""); an unknown type is rejected by the type test, a known one by the certified file-name validator on the empty name'),
+ dict(name='benign-gm-store-found-realistic-conjunct', expect='silent',
+      edits=[(T, GM_TS, GM_TS.replace('if !found {', 'if len(trustStores) > 1 && !found {'))],
+      why='silent for the property: as above, whatever the conjunct'),
+ dict(name='gm-store-found-false-conjunct-empty-name-passes', expect='flagged(store/separator)',
+      edits=[(T, GM_TS, GM_TS.replace('if !found {', 'if false && (!found) {')), (T, GM_NAME, '\t\tif namedStore != "" && !file.IsValidFileName(namedStore) {')]),
+ dict(name='gm-store-found-realistic-conjunct-empty-name-passes', expect='flagged(store/separator)',
+      edits=[(T, GM_TS, GM_TS.replace('if !found {', 'if len(trustStores) > 1 && !found {')), (T, GM_NAME, '\t\tif len(namedStore) > 0 && !file.IsValidFileName(namedStore) {')]),
+ dict(name='gm-store-found-realistic-conjunct-name-validator-admits-empty', expect='flagged(store/separator)',
+      edits=[(T, GM_TS, GM_TS.replace('if !found {', 'if len(trustStores) > 1 && !found {')), (F, '`^[a-zA-Z0-9_.-]+$`', '`^[a-zA-Z0-9_.-]*$`')]),
+]
+VARIANTS += NEW5
